@@ -140,6 +140,33 @@ def rule_absorb_tables(ctx):
         r.ok("_do_absorb[else]")
     else:
         r.bad(Finding("absorb-tables", "_do_absorb", "an unknown absorb code is not rejected", where=f"{m.relpath}:{g.lineno}", operand="else"))
+    # every inline implementation of the absorb table in decomp.py (the drivers that take shortcuts per mode):
+    # whatever the local names, a returned triple must be None exactly where the code's name says nothing is returned
+    n_inline = 0
+    for g2 in m.all_functions:
+        if isinstance(g2.node, ast.Lambda) or "absorb" not in g2.params or g2.name in ("_do_absorb", "_do_absorb_numba"):
+            continue
+        for node in ast.walk(g2.node):
+            if isinstance(node, ast.If) and isinstance(node.test, ast.Compare) and src_of(node.test.left) == "absorb" and len(node.test.ops) == 1:
+                cname = None
+                if isinstance(node.test.ops[0], ast.Is) and const_value(node.test.comparators[0], "x") is None:
+                    cname = "get_U_s_VH"
+                elif isinstance(node.test.ops[0], ast.Eq) and isinstance(node.test.comparators[0], ast.Name) and node.test.comparators[0].id in codes:
+                    cname = node.test.comparators[0].id
+                if cname is None:
+                    continue
+                for s_ in node.body:
+                    if isinstance(s_, ast.Return) and isinstance(s_.value, ast.Tuple) and len(s_.value.elts) == 3:
+                        n_inline += 1
+                        got = tuple(const_value(e_, "x") is None and isinstance(e_, ast.Constant) for e_ in s_.value.elts)
+                        want = tuple(x_ is None for x_ in spelled_triple(cname))
+                        if got == want:
+                            r.ok(f"{g2.qualname}[{cname}]", nontrivial=False)
+                        else:
+                            r.bad(Finding("absorb-tables", g2.qualname,
+                                          f"for absorb == {cname} returns `{src_of(s_.value)[:60]}` (line {s_.lineno}): None-pattern {got} differs from {want} spelled by the code",
+                                          where=f"{m.relpath}:{s_.lineno}", operand=f"{cname}:none-pattern"))
+    r.floor(n_inline, 40, "inline absorb returns in split drivers")
     # transpose map
     tmap = env.get("_ABSORB_TRANSPOSE_MAP")
     if not isinstance(tmap, dict):
